@@ -452,3 +452,225 @@ func (g *TyGen) Inject(decls []*ast.Decl, class string) ([]*ast.Decl, string) {
 	}
 	return out, "no defect injected"
 }
+
+// ---------- environments for the equality differential (C08) ----------
+
+func renameTy(t *ast.Ty, f func(string) string) {
+	t.Walk(func(n *ast.Ty) {
+		if n.K == ast.KName {
+			n.Name = f(n.Name)
+		}
+	})
+}
+
+func findDecl(decls []*ast.Decl, name string) *ast.Decl {
+	for _, d := range decls {
+		if d.Name == name {
+			return d
+		}
+	}
+	return nil
+}
+
+// EqEnv builds definitions T0.. plus clones U0.. rewritten by equality-preserving steps
+// (unrolling, alias insertion, branch permutation) and, sometimes, one near-miss edit, plus
+// alias definitions. The result is well-formed; which pairs are equal is for the reference.
+func (g *TyGen) EqEnv() ([]*ast.Decl, []string) {
+	n := g.Int(1, 4, "ndefs")
+	base := g.Env(n, "T")
+	var log []string
+	clone := (&ast.Program{Decls: base}).Clone().Decls
+	for _, d := range clone {
+		d.Name = "U" + d.Name[1:]
+		renameTy(d.Ty, func(s string) string {
+			if strings.HasPrefix(s, "T") {
+				return "U" + s[1:]
+			}
+			return s
+		})
+		g.Names = append(g.Names, d.Name)
+		g.Modes[d.Name] = g.Modes["T"+d.Name[1:]]
+	}
+	all := append(append([]*ast.Decl{}, base...), clone...)
+	// alias definitions
+	na := g.Int(0, 2, "naliases")
+	for i := 0; i < na; i++ {
+		target := all[g.Pick(len(all), "aliasof")]
+		nm := fmt.Sprintf("A%d", i)
+		m := g.Modes[target.Name]
+		all = append(all, &ast.Decl{Kind: ast.DType, Name: nm, Ty: ast.NameTy(m, target.Name)})
+		g.Names = append(g.Names, nm)
+		g.Modes[nm] = m
+		log = append(log, nm+" aliases "+target.Name)
+	}
+	steps := g.Int(0, 4, "nrewrites")
+	for s := 0; s < steps; s++ {
+		nodes := collect(clone)
+		switch g.Pick(4, "rewrite") {
+		case 0: // unroll a name occurrence
+			var c []nodeRef
+			for _, r := range nodes {
+				if r.Node.K == ast.KName {
+					c = append(c, r)
+				}
+			}
+			if len(c) == 0 {
+				continue
+			}
+			r := c[g.Pick(len(c), "unrollat")]
+			d := findDecl(all, r.Node.Name)
+			if d == nil || d.Ty.Size() > 40 {
+				continue
+			}
+			b := d.Ty.Clone()
+			b.Ann = ""
+			b.Paren = false
+			r.Set(b)
+			log = append(log, fmt.Sprintf("unrolled %s in %s", d.Name, clone[r.Def].Name))
+		case 1: // route a name occurrence through an alias
+			var c []nodeRef
+			for _, r := range nodes {
+				if r.Node.K == ast.KName {
+					c = append(c, r)
+				}
+			}
+			if len(c) == 0 {
+				continue
+			}
+			r := c[g.Pick(len(c), "aliasat")]
+			nm := fmt.Sprintf("A%d", len(all))
+			m := r.Node.M
+			all = append(all, &ast.Decl{Kind: ast.DType, Name: nm, Ty: ast.NameTy(m, r.Node.Name)})
+			g.Names = append(g.Names, nm)
+			g.Modes[nm] = m
+			r.Node.Name = nm
+			log = append(log, "alias "+nm+" inserted in "+clone[r.Def].Name)
+		case 2: // permute branches
+			var c []nodeRef
+			for _, r := range nodes {
+				if len(r.Node.Brs) >= 2 {
+					c = append(c, r)
+				}
+			}
+			if len(c) == 0 {
+				continue
+			}
+			t := c[g.Pick(len(c), "permat")].Node
+			i := g.Pick(len(t.Brs), "i")
+			j := g.Pick(len(t.Brs), "j")
+			t.Brs[i], t.Brs[j] = t.Brs[j], t.Brs[i]
+			log = append(log, "branches permuted")
+		default: // point a clone back at the original (mixing the two families)
+			var c []nodeRef
+			for _, r := range nodes {
+				if r.Node.K == ast.KName && strings.HasPrefix(r.Node.Name, "U") {
+					c = append(c, r)
+				}
+			}
+			if len(c) == 0 {
+				continue
+			}
+			r := c[g.Pick(len(c), "mixat")]
+			r.Node.Name = "T" + r.Node.Name[1:]
+			log = append(log, "clone refers to original "+r.Node.Name)
+		}
+	}
+	if g.Chance(55, "nearmiss") {
+		nodes := collect(clone)
+		r := nodes[g.Pick(len(nodes), "missat")]
+		t := r.Node
+		switch {
+		case len(t.Brs) > 0 && g.Bool("label"):
+			i := g.Pick(len(t.Brs), "br")
+			t.Brs[i].L = "zz"
+			log = append(log, "near miss: label renamed")
+		case len(t.Brs) > 1:
+			i := g.Pick(len(t.Brs), "br")
+			t.Brs = append(t.Brs[:i], t.Brs[i+1:]...)
+			log = append(log, "near miss: branch dropped")
+		case t.K == ast.KTensor:
+			t.K = ast.KLolli
+			log = append(log, "near miss: * became -*")
+		case t.K == ast.KLolli:
+			t.K = ast.KTensor
+			log = append(log, "near miss: -* became *")
+		case t.K == ast.KPlus:
+			t.K = ast.KWith
+			log = append(log, "near miss: + became &")
+		case t.K == ast.KWith:
+			t.K = ast.KPlus
+			log = append(log, "near miss: & became +")
+		case t.K == ast.KOne && r.Depth > 0:
+			r.Set(ast.Tensor(t.M, ast.One(t.M), ast.One(t.M)))
+			log = append(log, "near miss: 1 became 1 * 1")
+		case t.IsShift() && t.L.M == t.M:
+			if t.K == ast.KUp {
+				t.K = ast.KDown
+			} else {
+				t.K = ast.KUp
+			}
+			log = append(log, "near miss: shift direction flipped")
+		case t.K == ast.KName:
+			c := g.namesOfMode(t.M)
+			t.Name = c[g.Pick(len(c), "othername")]
+			log = append(log, "near miss: name replaced by "+t.Name)
+		}
+	}
+	if g.Chance(25, "assocfamily") {
+		all = append(all, g.assocFamily(&log)...)
+	}
+	// a definition body must not have become a bare name cycle; aliases only point to existing names
+	g.Annotate(all)
+	return all, log
+}
+
+// assocFamily adds definitions that differ only in how binary constructors associate (or in
+// whether a shift covers the rest of the type), referenced through names and inline, so that an
+// equality that identifies types by an ambiguous rendering is exposed.
+func (g *TyGen) assocFamily(log *[]string) []*ast.Decl {
+	m := g.GenMode()
+	leaf := func() *ast.Ty {
+		if c := g.namesOfMode(m); len(c) > 0 && g.Chance(40, "leafname") {
+			return ast.NameTy(m, c[g.Pick(len(c), "leaf")])
+		}
+		return ast.One(m)
+	}
+	bin := func(l, r *ast.Ty) *ast.Ty {
+		if g.Bool("lolli") {
+			return ast.Lolli(m, l, r)
+		}
+		return ast.Tensor(m, l, r)
+	}
+	x, y, z := leaf(), leaf(), leaf()
+	var left, right *ast.Ty
+	if g.Chance(30, "shiftform") && !g.NoShifts {
+		// (m /\ m x) op y   versus   m /\ m (x op y)
+		op := bin(x.Clone(), y.Clone())
+		mk := ast.Up
+		if g.Bool("down") {
+			mk = ast.Down
+		}
+		right = mk(m, op)
+		left = &ast.Ty{K: op.K, M: m, L: mk(m, x.Clone()), R: y.Clone()}
+	} else {
+		k1 := bin(x.Clone(), y.Clone())
+		left = &ast.Ty{K: ast.KTensor, M: m, L: k1, R: z.Clone()}
+		inner := &ast.Ty{K: ast.KTensor, M: m, L: y.Clone(), R: z.Clone()}
+		right = &ast.Ty{K: k1.K, M: m, L: x.Clone(), R: inner}
+		if g.Bool("outerlolli") {
+			left.K, inner.K = ast.KLolli, ast.KLolli
+		}
+	}
+	add := func(name string, t *ast.Ty) *ast.Decl {
+		g.Names = append(g.Names, name)
+		g.Modes[name] = m
+		return &ast.Decl{Kind: ast.DType, Name: name, Ty: t}
+	}
+	var out []*ast.Decl
+	out = append(out, add("AsL", left), add("AsR", right))
+	out = append(out, add("AsS", ast.Plus(m, ast.Br{L: "a", T: ast.NameTy(m, "AsL")}, ast.Br{L: "b", T: ast.NameTy(m, "AsL")})))
+	out = append(out, add("AsT", ast.Plus(m, ast.Br{L: "a", T: left.Clone()}, ast.Br{L: "b", T: right.Clone()})))
+	out = append(out, add("AsV", ast.Plus(m, ast.Br{L: "a", T: left.Clone()}, ast.Br{L: "b", T: left.Clone()})))
+	*log = append(*log, "association family AsL/AsR/AsS/AsT/AsV added")
+	return out
+}
